@@ -39,7 +39,7 @@ var engines = map[string]engineSpec{
 
 // propEngines lists the engines whose runs decide a property, with weights.
 var propEngines = map[string][]string{
-	"C01": {"e1"}, "C02": {"e1", "e2"}, "C03": {"e2"}, "C04": {"e1", "e2"}, "C05": {"e1"}, "C06": {"e1"}, "C07": {"e1"},
+	"C01": {"e1"}, "C02": {"e1", "e2"}, "C03": {"e2"}, "C04": {"e1", "e2"}, "C05": {"e1"}, "C06": {"e1", "e1", "e2"}, "C07": {"e1"},
 	"C08": {"e1", "e2"}, "C09": {"e1", "e2"}, "C10": {"e3"}, "C11": {"e1"}, "C12": {"e1"}, "C13": {"e13", "e13", "e2"}, "C14": {"e1"}, "C15": {"e2"}, "C16": {"e2"}, "C17": {"e1"},
 	"C18": {"e1", "e2"}, "C19": {"e1"}, "C20": {"e2"},
 }
@@ -195,6 +195,9 @@ func TestWorker(t *testing.T) {
 			continue
 		}
 		if v := res.Violation; v != nil {
+			if mine := res.For(prop, ""); mine != nil {
+				v = mine // several oracles may have fired: this property's own one counts here
+			}
 			if v.Has(prop) && knownOracles[v.Oracle] {
 				// a recorded, unrepaired defect: count it, keep one minimised example, carry on
 				out.KnownSeen[v.Oracle]++
@@ -213,6 +216,13 @@ func TestWorker(t *testing.T) {
 				out.Foreign[key]++
 				if _, ok := out.ForeignEx[key]; !ok {
 					out.ForeignEx[key] = fmt.Sprintf("seed %d: %s", seed, v.Msg)
+				}
+			}
+			if res.For(prop, "") != nil {
+				for _, o := range res.All {
+					if !o.Has(prop) {
+						out.Foreign[strings.Join(o.Tags, "+")+":"+o.Oracle]++
+					}
 				}
 			}
 		}
@@ -277,8 +287,8 @@ func minimiseAndRecord(t *testing.T, prop string, eng engineSpec, prog *Program,
 		}
 		execs++
 		r := eng.Run(t, cloneProgram(cand), false)
-		if r.Trouble == "" && sameClass(v, r.Violation, prop) {
-			best, bestV = cand, r.Violation
+		if same := r.For(prop, v.Oracle); r.Trouble == "" && same != nil {
+			best, bestV = cand, same
 			return true
 		}
 		return false
@@ -297,9 +307,9 @@ func minimiseAndRecord(t *testing.T, prop string, eng engineSpec, prog *Program,
 			}
 			execs++
 			r := eng.Run(t, cloneProgram(c), false)
-			if r.Trouble == "" && sameClass(v, r.Violation, prop) {
+			if same := r.For(prop, v.Oracle); r.Trouble == "" && same != nil {
 				c.CrashAt, c.Torn = r.CrashAt, r.Torn // pin the crash point for the replay
-				best, bestV = c, r.Violation
+				best, bestV = c, same
 				oi--
 			}
 		}
@@ -407,7 +417,11 @@ func minimiseAndRecord(t *testing.T, prop string, eng engineSpec, prog *Program,
 	rec.MinOps, rec.Execs, rec.Violation = progSize(best), execs, bestV
 	// final run with the trace, written as the replay file
 	final := eng.Run(t, cloneProgram(best), true)
-	rf := ReplayFile{Property: prop, Engine: eng.Name, Seed: seed, Program: best, Violation: final.Violation, Trace: final.Log,
+	fv := final.For(prop, bestV.Oracle)
+	if fv == nil {
+		fv = final.Violation
+	}
+	rf := ReplayFile{Property: prop, Engine: eng.Name, Seed: seed, Program: best, Violation: fv, Trace: final.Log,
 		Note: "replay with: ./check " + prop + " --replay <this file>"}
 	if dir == "" {
 		dir = os.TempDir()
@@ -442,6 +456,11 @@ func TestReplay(t *testing.T) {
 	res := eng.Run(t, rf.Program, true)
 	// same oracle at the same step (incidental wording, e.g. which of two error causes rosmar
 	// names first, may differ between executions of rosmar itself)
+	if rf.Violation != nil {
+		if v := res.For(rf.Property, rf.Violation.Oracle); v != nil {
+			res.Violation = v
+		}
+	}
 	same := res.Violation != nil && rf.Violation != nil && res.Violation.Oracle == rf.Violation.Oracle && res.Violation.Step == rf.Violation.Step
 	out := map[string]any{"reproduced": same, "violation": res.Violation, "trouble": res.Trouble, "trace": res.Log}
 	if p := os.Getenv("VERIF_OUT"); p != "" {
